@@ -261,8 +261,15 @@ Fixpoint pretty_fuel (n : nat) (h : heap) (path : list value) (quote check : boo
 
 (* a path of distinct containers cannot be longer than the number of allocations *)
 Definition container_fuel (h : heap) : nat := S (S (Pos.to_nat (next h))).
+(* Staged fuel: nesting deeper than [quick_fuel] is rare, and [container_fuel h] costs time
+   linear in the heap (a unary number): it is only computed when the first attempt runs out.
+   By fuel monotonicity both stages give the same answer (Proofs/Pretty.v). *)
+Definition quick_fuel : nat := 100.
 Definition pretty_string (h : heap) (v : value) : option bytes :=
-  pretty_fuel (container_fuel h) h [] false false v.
+  match pretty_fuel quick_fuel h [] false false v with
+  | Some b => Some b
+  | None => pretty_fuel (container_fuel h) h [] false false v
+  end.
 
 (* Value.ToGoValue(): JSON value of a heap value *)
 Inductive go_result := GoOk (j : jvalue) | GoErr | GoFuel.
@@ -324,7 +331,10 @@ Fixpoint to_go_fuel (n : nat) (h : heap) (path : list value) (check : bool) (v :
   end.
 
 Definition to_go_value (h : heap) (v : value) : go_result :=
-  to_go_fuel (container_fuel h) h [] false v.
+  match to_go_fuel quick_fuel h [] false v with
+  | GoFuel => to_go_fuel (container_fuel h) h [] false v
+  | r => r
+  end.
 
 (* NewValue(decoded JSON): allocates the cells of arrays and objects *)
 Fixpoint new_value (j : jvalue) (h : heap) : value * heap :=
